@@ -523,6 +523,158 @@ fn arr_case(out: &mut impl Write, cunit: &str, cid: &str, seed: u64, n: usize) {
     writeln!(out, "arrend {cid} ops={} answered={}", ops.len(), real.len()).unwrap();
 }
 
+/// Generic protocol case: `ops` are sent to the unity driver with `prefix`, answers are paired with them.
+fn proto_case(out: &mut impl Write, cunit: &str, cid: &str, spec: &str, tag: &str, prefix: &str, header: &str, ops: &[String]) {
+    let input: String = ops.iter().map(|o| format!("{prefix} {o}\n")).collect();
+    let real = cunit_lines(cunit, &input);
+    writeln!(out, "spec {cid} {spec}").unwrap();
+    writeln!(out, "{tag}case {cid} {header}").unwrap();
+    for (o, r) in ops.iter().zip(real.iter()) {
+        writeln!(out, "{tag}op {o}").unwrap();
+        writeln!(out, "{tag}real {}", r.splitn(2, ' ').nth(1).unwrap_or("")).unwrap();
+    }
+    for o in ops.iter().skip(real.len()) {
+        writeln!(out, "{tag}unanswered {o}").unwrap();
+    }
+    writeln!(out, "{tag}end {cid} ops={} answered={}", ops.len(), real.len()).unwrap();
+}
+
+/// Recycling pools: `kind` = sub (SubtreePool, cap 32, enabled iff created with a capacity) or node (cap 50).
+fn pw_case(out: &mut impl Write, cunit: &str, cid: &str, seed: u64, n: usize) {
+    let mut rng = Rng::new(seed);
+    let sub = rng.chance(1, 2);
+    let capn = if sub { [0usize, 4, 40][rng.below(3)] } else { 0 };
+    let (cap, enabled) = if sub { (32usize, capn > 0) } else { (50usize, true) };
+    let mut pool: Vec<usize> = Vec::new();
+    let mut live: Vec<usize> = Vec::new();
+    let mut next = 0usize;
+    let mut ops = vec![format!("N {capn}")];
+    // phases: grow far beyond the cap, then shrink, then mix
+    for step in 0..n {
+        let grow = if step < n / 3 { 5 } else if step < 2 * n / 3 { 1 } else { 3 };
+        if live.is_empty() || rng.below(6) < grow {
+            let x = match pool.pop() {
+                Some(x) => x,
+                None => {
+                    next += 1;
+                    next - 1
+                }
+            };
+            live.push(x);
+            ops.push("A".into());
+        } else {
+            let i = rng.below(live.len());
+            let x = live.swap_remove(i);
+            if enabled && pool.len() + 1 <= cap {
+                pool.push(x);
+            }
+            ops.push(format!("F {x}"));
+        }
+    }
+    let kind = if sub { "sub" } else { "node" };
+    proto_case(out, cunit, cid, &format!("pw {seed} {n}"), "pw", &format!("pw {kind}"), &format!("kind={kind} cap={cap} enabled={}", enabled as u8), &ops);
+}
+
+fn cl_case(out: &mut impl Write, cunit: &str, cid: &str, seed: u64, n: usize) {
+    let mut rng = Rng::new(seed);
+    let mut in_use: Vec<bool> = Vec::new();
+    let mut max = usize::MAX;
+    let mut free = 0usize;
+    let mut ops = vec!["N".to_string()];
+    for _ in 0..n {
+        match rng.below(12) {
+            0 => {
+                max = [1usize, 2, 3, 8, 40][rng.below(5)];
+                ops.push(format!("M {max}"));
+                // lowering the limit only takes effect at the next reset (as in ts_query_cursor_exec)
+                ops.push("X".into());
+                let keep = in_use.len().min(max);
+                in_use = vec![false; keep];
+                free = keep;
+            }
+            1 => {
+                ops.push("X".into());
+                let keep = in_use.len().min(max);
+                in_use = vec![false; keep];
+                free = keep;
+            }
+            2 | 3 | 4 | 5 if in_use.iter().any(|b| *b) => {
+                let used: Vec<usize> = (0..in_use.len()).filter(|i| in_use[*i]).collect();
+                let id = *rng.pick(&used);
+                in_use[id] = false;
+                free += 1;
+                ops.push(format!("R {id}"));
+            }
+            6 => ops.push(format!("R {}", in_use.len() + rng.below(3))), // out of range: no-op
+            _ => {
+                if free > 0 {
+                    if let Some(i) = in_use.iter().position(|b| !*b) {
+                        in_use[i] = true;
+                        free -= 1;
+                    }
+                } else if in_use.len() < max {
+                    in_use.push(true);
+                }
+                ops.push("A".into());
+            }
+        }
+    }
+    proto_case(out, cunit, cid, &format!("cl {seed} {n}"), "cl", "cl", "-", &ops);
+}
+
+fn ess_case(out: &mut impl Write, cunit: &str, cid: &str, seed: u64, n: usize) {
+    let mut rng = Rng::new(seed);
+    let edge = [0usize, 1, 8, 23, 24, 25, 26, 32, 100, 1000, 4000];
+    let ops: Vec<String> = (0..n).map(|_| format!("{} {}", if rng.chance(2, 3) { *rng.pick(&edge) } else { rng.below(60) }, rng.next() % 1000)).collect();
+    let input: String = ops.iter().map(|o| format!("ess {o}\n")).collect();
+    let real = cunit_lines(cunit, &input);
+    writeln!(out, "spec {cid} ess {seed} {n}").unwrap();
+    for (k, (o, r)) in ops.iter().zip(real.iter()).enumerate() {
+        writeln!(out, "essq {cid}.{k} len={} {}", o.split(' ').next().unwrap(), r.splitn(2, ' ').nth(1).unwrap_or("")).unwrap();
+    }
+}
+
+fn al_case(out: &mut impl Write, cunit: &str, cid: &str, seed: u64, n: usize) {
+    // A layered graph, as on a real parse stack: a node's predecessor (and every node it gets linked
+    // to) is one layer below it, so positions are depths and the recursive merging descends.
+    let mut rng = Rng::new(seed);
+    let nodes = rng.range(4, 24);
+    let nstates = [1usize, 2, 3, 16, 16][rng.below(5)];
+    let wide = rng.chance(1, 2) && nodes >= 12;
+    let n = if wide { n.max(90) } else { n };
+    let mut layer_of: Vec<usize> = Vec::new();
+    let mut ops = vec!["C".to_string()];
+    for i in 0..nodes {
+        if i == 0 {
+            ops.push(format!("N -1 {}", 1 + rng.below(nstates)));
+            layer_of.push(0);
+        } else {
+            // one shape in three is wide: many siblings with distinct states under the root and
+            // one node above them that gets linked to all of them (fills links[] to the limit)
+            let prev = if wide { if i + 1 == nodes { 1 } else { 0 } } else { rng.below(i) };
+            let st = if wide { i } else { 1 + rng.below(nstates) };
+            ops.push(format!("N {prev} {st}"));
+            layer_of.push(layer_of[prev] + 1);
+        }
+    }
+    let mut tries = 0;
+    let mut made = 0;
+    // favour one node of the deepest populated layer so that it fills up to MAX_LINK_COUNT and beyond
+    let fav = (0..nodes).max_by_key(|&i| (0..nodes).filter(|&j| layer_of[j] + 1 == layer_of[i]).count()).unwrap_or(1);
+    while made < n && tries < n * 20 {
+        tries += 1;
+        let a = if rng.chance(1, 2) { fav } else { rng.range(1, nodes - 1) };
+        let below: Vec<usize> = (0..nodes).filter(|&j| layer_of[j] + 1 == layer_of[a]).collect();
+        if below.is_empty() {
+            continue;
+        }
+        let b = *rng.pick(&below);
+        ops.push(format!("L {a} {b}"));
+        made += 1;
+    }
+    proto_case(out, cunit, cid, &format!("al {seed} {n}"), "al", "al", "-", &ops);
+}
+
 fn inl_case(out: &mut impl Write, cunit: &str, cid: &str, seed: u64, n: usize) {
     let mut rng = Rng::new(seed);
     let edge = [0usize, 1, 14, 15, 16, 17, 253, 254, 255, 256, 257, 65535, 1 << 20];
@@ -580,12 +732,20 @@ fn main() {
         for _ in 0..(if thorough { 20 } else { 4 }) {
             specs.push(format!("inl {} {}", rng.next() % 1_000_000_007, 200));
         }
+        for _ in 0..(if thorough { 60 } else { 10 }) {
+            specs.push(format!("pw {} {}", rng.next() % 1_000_000_007, rng.range(40, 400)));
+            specs.push(format!("cl {} {}", rng.next() % 1_000_000_007, rng.range(20, 150)));
+            specs.push(format!("al {} {}", rng.next() % 1_000_000_007, rng.range(5, 60)));
+        }
+        for _ in 0..(if thorough { 10 } else { 3 }) {
+            specs.push(format!("ess {} {}", rng.next() % 1_000_000_007, 60));
+        }
     }
     let mut langs_cache: std::collections::HashMap<String, Option<zoo::Built>> = std::collections::HashMap::new();
     let mut nhist = 0;
     for (i, line) in specs.iter().enumerate() {
         let f: Vec<&str> = line.split_whitespace().collect();
-        let f: Vec<&str> = if f.len() >= 2 && ["hist", "arr", "inl"].contains(&f[1]) { f[1..].to_vec() } else { f };
+        let f: Vec<&str> = if f.len() >= 2 && ["hist", "arr", "inl", "pw", "cl", "ess", "al"].contains(&f[1]) { f[1..].to_vec() } else { f };
         match f.as_slice() {
             ["hist", kind, lang, seed] => {
                 let b = langs_cache.entry(lang.to_string()).or_insert_with(|| zoo::load(lang).ok());
@@ -610,6 +770,10 @@ fn main() {
             }
             ["arr", seed, n] => arr_case(&mut out, &cunit, &format!("a{i}"), seed.parse().unwrap(), n.parse().unwrap()),
             ["inl", seed, n] => inl_case(&mut out, &cunit, &format!("i{i}"), seed.parse().unwrap(), n.parse().unwrap()),
+            ["pw", seed, n] => pw_case(&mut out, &cunit, &format!("p{i}"), seed.parse().unwrap(), n.parse().unwrap()),
+            ["cl", seed, n] => cl_case(&mut out, &cunit, &format!("c{i}"), seed.parse().unwrap(), n.parse().unwrap()),
+            ["ess", seed, n] => ess_case(&mut out, &cunit, &format!("e{i}"), seed.parse().unwrap(), n.parse().unwrap()),
+            ["al", seed, n] => al_case(&mut out, &cunit, &format!("l{i}"), seed.parse().unwrap(), n.parse().unwrap()),
             _ => {}
         }
     }
